@@ -16,7 +16,7 @@ use std::io::Cursor;
 
 pub struct C19;
 
-const CLASSES: [&str; 10] = ["ascii", "xml_special", "spaces", "tab_lf", "cr", "combining", "bmp", "astral", "long", "mixed"];
+const CLASSES: [&str; 11] = ["ascii", "xml_special", "spaces", "tab_lf", "cr", "combining", "latin1_c1", "bmp", "astral", "long", "mixed"];
 
 fn gen_string(rng: &mut Rng, class: &str, serial: u64, fmt: &str) -> String {
     let tag = format!("[{}]", serial);
@@ -27,6 +27,9 @@ fn gen_string(rng: &mut Rng, class: &str, serial: u64, fmt: &str) -> String {
         "tab_lf" => rng.pick(&["col1\tcol2\nline2\n\nline4", "\nafter an empty first line", "trailing newline\n", "\n\ntwo empty lines first", "\t\tx"]).to_string(),
         "cr" => "mac\rline\r\nwin".into(),
         "combining" => "e\u{301}a\u{308}\u{323} n\u{303}".into(),
+        // Latin-1 text only (8-bit storage in xls): C1 controls, and letter pairs whose bytes
+        // would also be well-formed UTF-8 (Ã© = C3 A9, Â£ = C2 A3)
+        "latin1_c1" => "a\u{80}b\u{85}c\u{99}d\u{9f} Caf\u{c3}\u{a9} 20 \u{c2}\u{b0}C \u{c2}\u{a3}".into(),
         "bmp" => "éÿ Ωж 日本語 ﷺ \u{FFFD} €".into(),
         "astral" => "😀𝄞𐍈 \u{10FFFF} x\u{1F468}\u{200D}\u{1F469}".into(),
         "long" => {
